@@ -83,9 +83,10 @@ PROP = dict(
     rule="three streams: (1) bsearch -- random UNSORTED/sorted/constant u64 arrays (len 0..300) and keys, slice::binary_search and "
          "binary_search_by(never-Equal comparator) against Lib/Sorting.v; (2) HilbertCurve on 2-D/3-D point sets (uniform, clustered, "
          "collinear, coincident, lattice, duplicates, one outlier) x weights (ones, integer, dyadic fractional, zeros, one dominant, "
-         "arbitrary fractional) x part_count 1..n+2 x orders 0..MAX+1 x pools 1,2,4,8,16; (3) ZCurve on the same point families x "
+         "arbitrary fractional) x part_count 1..n+2 x orders 0..MAX+1 x pools 1,2,4,8,16, plus a malformed stream (1/15: weights or ids shorter/longer "
+         "than the points; outside the contract, model vs implementation only); (3) ZCurve on the same point families x "
          "part_count 1..n+2 x orders 0..max_order+1 x the same pools. distinct = distinct (stream, points, weights, part_count, order, "
-         "pool); non-trivial = bsearch: len >= 2; curves: at least 3 points, part_count >= 2 and an accepted order",
+         "pool); non-trivial = bsearch: len >= 2; curves: at least 3 points, part_count >= 2, an accepted order and matching lengths",
     class_names={0: "Ok", 2: "error (InvalidOrder)", 3: "panic", 4: "hang", 10: "bsearch"},
     trusted_base=[
         "axioms: none (every theorem of Properties/C09.v is closed under the global context)",
